@@ -150,6 +150,8 @@ def assemble(argv, flags=None):
 def case_strategy(draw, tier):
     m = draw(module_desc())
     a = draw(argv_desc(m['classes']))
+    if m.get('load_tests'):
+        a.pop('k', None)    # -k does not reach tests a hook builds by hand
     return {'module': m, 'argv': a,
             'subprocess': draw(st.integers(0, 49)) == 0}
 
@@ -192,7 +194,8 @@ def valid(case):
         if a['tail'] == ['-W'] and a['names']:
             return False
         if a.get('k') is not None and (a['k'] not in K_PATTERNS
-                                       or a['tail'] == ['-W']):
+                                       or a['tail'] == ['-W']
+                                       or case['module'].get('load_tests')):
             return False
         if a.get('tail_pos', 'end') not in ('end', 'first', 'before-names'):
             return False
@@ -230,7 +233,9 @@ def module_source(desc, logpath):
                   '    for cls in (%s,):' % ', '.join(
                       c['name'] for c in desc['classes']),
                   '        inner = unittest.TestSuite()',
-                  '        inner.addTests(loader.loadTestsFromTestCase(cls))',
+                  '        inner.addTests(cls(m) for m in',
+                  '                       unittest.TestLoader()'
+                  '.getTestCaseNames(cls))',
                   '        suite.addTest(unittest.TestSuite([inner]))',
                   '    return suite', '']
     lines += ['if __name__ == "__main__":',
@@ -416,6 +421,8 @@ def run(case, ctx):
         ) and has_tdda and others >= 2
     if any(c['base'] for c in desc['classes']):
         out.label('inheritance')
+    if desc.get('load_tests'):
+        out.label('load_tests-hook')
     if argv['names']:
         out.label('class-names')
     if argv['tail']:
